@@ -14,7 +14,11 @@
    document through the same object while some of the types of k_schema were not yet defined (their names, the flag
    of that load and the error kind it ended with, None = it returned a CAS), the missing types created in between.
    The model runs the whole XmiLoadC17.session; every earlier load ends as observed and the last one is the observed
-   load (by C17_session_history_irrelevant it is load_xmi for the types defined at that moment). *)
+   load (by C17_session_history_irrelevant it is load_xmi for the types defined at that moment).
+   Fourth wave: k_schema may define built-in types only (every user type and uima.tcas.DocumentAnnotation deleted), the
+   document may then have no element of unknown type at all (strict load succeeds, views possibly empty), and the foreign
+   types of k_adds include the deleted types themselves; the guard works with XmiLoadC17.loaded_ts, the type system the
+   CAS got from the reader (the supplied one, not a default one). *)
 From Cassis Require Import Base Offsets Heap Schema Canon Lex XmiDoc XmiLoad XmiLoadC17 CorrC05.
 Open Scope Z_scope.
 
@@ -36,7 +40,7 @@ Definition as05 (c : case) (cc : ccas) : CorrC05.case := CorrC05.mkCase (k_schem
 Definition content_of (c : case) (r : res lcas) : res ccas := do lc <- r ;; canon_loaded (k_schema c) lc.
 Definition add_ok (c : case) (lc : lcas) (a : list string * tname * option err) : bool :=
   let '(path, tn, out) := a in
-  match handle_add (k_schema c) (derive (cas_handle lc) path) tn, out with
+  match loaded_add (k_schema c) default_extra lc path tn, out with
   | Ok _, None => true
   | Err e, Some e' => err_eqb e e'
   | _, _ => false
